@@ -75,7 +75,12 @@ func GetCPUPlans(resourceInfo *types.NodeResourceInfo, originCPUMap types.CPUMap
 
 	// get cpu plan for each numa node
 	for numaNodeID, cpuMap := range numaCPUMap {
-		numaCPUPlans := doGetCPUPlans(originCPUMap, cpuMap, availableResource.NUMAMemory[numaNodeID], shareBase, maxFragmentCores, req.CPURequest, req.MemRequest)
+		// a NUMA group is limited by the NUMA node's memory and by what is left of the node's memory
+		numaMemory := availableResource.NUMAMemory[numaNodeID]
+		if availableResource.Memory < numaMemory {
+			numaMemory = availableResource.Memory
+		}
+		numaCPUPlans := doGetCPUPlans(originCPUMap, cpuMap, numaMemory, shareBase, maxFragmentCores, req.CPURequest, req.MemRequest)
 		for _, workloadCPUMap := range numaCPUPlans {
 			cpuPlans = append(cpuPlans, &types.CPUPlan{
 				NUMANode: numaNodeID,
@@ -146,6 +151,9 @@ func doGetCPUPlans(originCPUMap, availableCPUMap types.CPUMap, availableMemory i
 	cpuPlans := h.getCPUPlans(cpuRequest)
 	if memoryRequest > 0 {
 		memoryCapacity := int(availableMemory / memoryRequest)
+		if memoryCapacity < 0 {
+			memoryCapacity = 0
+		}
 		if memoryCapacity < len(cpuPlans) {
 			cpuPlans = cpuPlans[:memoryCapacity]
 		}
